@@ -454,8 +454,8 @@ static void sf_inter(const sf_t *f, const sf_t *g)
 }
 
 /* batch layout of group "stream": per sf, parts 0..7, part 0 split in sub-batches per n above 12 */
-static const int NC0[3] = { 12, 15, 20 }, NC1[3] = { 9, 11, 14 }, RN[3] = { 24, 300, 4000 }, IN[3] = { 16, 200, 3000 };
-#define SF_SUB (8 + 8)   /* parts 1..7 + part 0 (n<=12) + up to 8 sub-batches for n = 13..20 */
+static const int NC0[3] = { 12, 16, 21 }, NC1[3] = { 9, 12, 16 }, RN[3] = { 24, 500, 8000 }, IN[3] = { 16, 300, 5000 };
+#define SF_SUB (8 + 10)  /* parts 0..7 (part 0: n<=12) + sub-batches for n = 13..22 */
 static int stream_nbatches(void) { return NSF * SF_SUB; }
 static void stream_run(int batch)
 {
@@ -746,6 +746,7 @@ static void cbc_item(const cbc_t *c, int enc, size_t nb, const uint32_t *cut, in
     xb_dup(&xk, (sa + 7) % 16, slice(c->ks), c->ks); xb_dup(&xv, (sa + 11) % 16, slice(c->bs), c->bs); xb_dup(&xi, sa, slice(n), n); xb_new(&xo, da, inplace ? 0 : n);
     ref_cipher(cbc_ref(c), enc, xk.p, xv.p, xi.p, n, ref);
     unsigned char *dst = inplace ? xi.p : xo.p;
+    if (g_item & 1) { unsigned char scratch[32]; if (cbc_init(c, x, xk.p, xk.p, !enc) >= 0) cbc_crypt(c, x, !enc, xk.p, scratch, (uint32_t) c->bs); }   /* dirty the context: reuse through re-Init */
     int32_t rc = cbc_init(c, x, xv.p, xk.p, enc);
     if (g_batch % 6 == 0 && g_item == 1) vf_sample("%s: %s %zu bytes in %d calls, src align %d dst align %d%s", c->name, enc ? "encrypt" : "decrypt", n, nc + 1, sa, da, inplace ? " in place" : "");
     cnt(c->name);
@@ -823,4 +824,431 @@ static void cbc_run(int batch)
         for (int i = 0; i < IN[d]; i++) cbc_inter_item(c, (i & 1) ? &CB[(batch / 6 + 1 + i / 2) % 4] : c);
         break;
     }
+}
+
+/* ================================================================== */
+/* AES-GCM                                                             */
+/* ================================================================== */
+static const char *GN[3] = { "aes128gcm", "aes192gcm", "aes256gcm" };
+static const int GKS[3] = { 16, 24, 32 };
+typedef struct { xb_t k, iv, aad, pt; unsigned char *ct; unsigned char tag[16]; size_t n, al; int ki; } gcase_t;
+static void gcase_new(gcase_t *g, int ki, size_t n, size_t al, int a)
+{
+    g->ki = ki; g->n = n; g->al = al;
+    xb_dup(&g->k, (a + 1) % 16, slice(GKS[ki]), GKS[ki]); xb_dup(&g->iv, (a + 2) % 16, slice(12), 12); xb_dup(&g->aad, (a + 3) % 16, slice(al), al); xb_dup(&g->pt, a, slice(n), n);
+    g->ct = malloc(n + 1);
+    ref_aead(RC_GCM[ki], g->k.p, g->iv.p, g->aad.p, al, g->pt.p, n, g->ct, g->tag);
+}
+static void gcase_free(gcase_t *g) { xb_free(&g->k); xb_free(&g->iv); xb_free(&g->aad); xb_free(&g->pt); free(g->ct); }
+static int gcm_ready(psAesGcm_t *x, int ki, const unsigned char *k, const unsigned char *iv, const unsigned char *aad, size_t al)
+{
+    int32_t rc = psAesInitGCM(x, k, (uint8_t) GKS[ki]);
+    if (rc < 0) { V(GN[ki], "init-failed", "psAesInitGCM returned %d", rc); return -1; }
+    psAesReadyGCM(x, iv, aad, (psSize_t) al);
+    return 0;
+}
+/* Re-arm a context for another message.  After a 16-byte tag the TLS pattern (psAesReadyGCM on the
+ * same context) is used; after a shorter tag the context is fully re-initialised here, and the
+ * reuse-after-short-tag pattern is judged separately by gcm_reuse_item. */
+static void gcm_again(psAesGcm_t *x, int ki, const unsigned char *k, const unsigned char *iv, const unsigned char *aad, size_t al, int tb)
+{
+    if (tb == 16) psAesReadyGCM(x, iv, aad, (psSize_t) al);
+    else (void) gcm_ready(x, ki, k, iv, aad, al);
+}
+/* seal with cuts, tag of tb bytes; open through the three decrypt entry points */
+static void gcm_item(int ki, size_t n, size_t al, const uint32_t *cut, int nc, int a, int inplace, int tb, const char *tag)
+{
+    if (!item_begin()) return;
+    gcase_t g; gcase_new(&g, ki, n, al, a);
+    psAesGcm_t *x = malloc(sizeof *x); xb_t xo, xt, xw; const char *nm = GN[ki];
+    if (g_batch % 6 == 0 && g_item == 1) vf_sample("%s: seal+open %zu bytes, aad %zu, %d encrypt calls, tag %d bytes, align %d%s", nm, n, al, nc + 1, tb, a, inplace ? " in place" : "");
+    /* --- seal --- */
+    xb_dup(&xw, (a + 5) % 16, g.pt.p, n); xb_new(&xo, (a + 9) % 16, inplace ? 0 : n); xb_new(&xt, (a + 4) % 16, tb);
+    unsigned char *dst = inplace ? xw.p : xo.p;
+    if (gcm_ready(x, ki, g.k.p, g.iv.p, g.aad.p, al) == 0) {
+        size_t p = 0;
+        for (int i = 0; i < nc; i++) { psAesEncryptGCM(x, xw.p + p, dst + p, (uint32_t) (cut[i] - p)); p = cut[i]; }
+        psAesEncryptGCM(x, xw.p + p, dst + p, (uint32_t) (n - p));
+        psAesGetGCMTag(x, (uint8_t) tb, xt.p);
+        cnt(nm);
+        if (memcmp(dst, g.ct, n)) { size_t i = 0; while (dst[i] == g.ct[i]) i++; V(nm, inplace ? "wrong-ciphertext-inplace" : nc ? "wrong-ciphertext-split" : "wrong-ciphertext", "%s n=%zu aad=%zu calls=%d align=%d: first difference at byte %zu: got %s want %s", tag, n, al, nc + 1, a, i, hx(dst + i, n - i), hx(g.ct + i, n - i)); }
+        else if (memcmp(xt.p, g.tag, tb)) V(nm, nc ? "wrong-tag-split" : "wrong-tag", "%s n=%zu aad=%zu calls=%d tagbytes=%d: got %s want %s", tag, n, al, nc + 1, tb, hx(xt.p, tb), hx(g.tag, tb));
+        XB_CHECK(&xo, nm); XB_CHECK(&xt, nm); XB_CHECK(&xw, nm);
+    }
+    xb_free(&xo); xb_free(&xt); xb_free(&xw);
+    /* --- open, combined buffer ct || tag[0..tb) --- */
+    xb_new(&xw, (a + 6) % 16, n + tb); memcpy(xw.p, g.ct, n); memcpy(xw.p + n, g.tag, tb); xb_new(&xo, (a + 10) % 16, inplace ? 0 : n);
+    dst = inplace ? xw.p : xo.p;
+    gcm_again(x, ki, g.k.p, g.iv.p, g.aad.p, al, tb);               /* context reuse: Ready again on the same key schedule */
+    int32_t rc = psAesDecryptGCM(x, xw.p, (uint32_t) (n + tb), dst, (uint32_t) n);
+    cnt(nm);
+    if (rc < 0) V(nm, tb == 16 ? "rejects-valid" : "rejects-valid-short-tag", "psAesDecryptGCM returned %d for unmodified input n=%zu aad=%zu tagbytes=%d", rc, n, al, tb);
+    else if (memcmp(dst, g.pt.p, n)) V(nm, inplace ? "wrong-plaintext-inplace" : "wrong-plaintext", "psAesDecryptGCM n=%zu aad=%zu: got %s want %s", n, al, hx(dst, n), hx(g.pt.p, n));
+    XB_CHECK(&xo, nm); XB_CHECK(&xw, nm);
+    xb_free(&xo); xb_free(&xw);
+    /* --- open, tagless with cuts + psAesGetGCMTag --- */
+    xb_dup(&xw, (a + 7) % 16, g.ct, n); xb_new(&xo, (a + 11) % 16, n); xb_new(&xt, (a + 12) % 16, 16);
+    gcm_again(x, ki, g.k.p, g.iv.p, g.aad.p, al, tb);
+    { size_t p = 0;
+      for (int i = 0; i < nc; i++) { psAesDecryptGCMtagless(x, xw.p + p, xo.p + p, (uint32_t) (cut[i] - p)); p = cut[i]; }
+      psAesDecryptGCMtagless(x, xw.p + p, xo.p + p, (uint32_t) (n - p)); }
+    psAesGetGCMTag(x, 16, xt.p);
+    cnt(nm);
+    if (memcmp(xo.p, g.pt.p, n)) V(nm, nc ? "wrong-plaintext-tagless-split" : "wrong-plaintext-tagless", "n=%zu aad=%zu calls=%d: got %s want %s", n, al, nc + 1, hx(xo.p, n), hx(g.pt.p, n));
+    else if (memcmp(xt.p, g.tag, 16)) V(nm, nc ? "wrong-tag-tagless-split" : "wrong-tag-tagless", "n=%zu aad=%zu calls=%d: got %s want %s", n, al, nc + 1, hx(xt.p, 16), hx(g.tag, 16));
+    XB_CHECK(&xo, nm); XB_CHECK(&xt, nm);
+    /* --- open, psAesDecryptGCM2 with detached tag --- */
+    { xb_t xg; xb_dup(&xg, (a + 13) % 16, g.tag, tb);
+      psAesReadyGCM(x, g.iv.p, g.aad.p, (psSize_t) al);
+      rc = psAesDecryptGCM2(x, xw.p, xo.p, (uint32_t) n, xg.p, (uint32_t) tb);
+      cnt(nm);
+      if (rc < 0) V(nm, "rejects-valid-gcm2", "psAesDecryptGCM2 returned %d for unmodified input n=%zu aad=%zu tagbytes=%d", rc, n, al, tb);
+      else if (memcmp(xo.p, g.pt.p, n)) V(nm, "wrong-plaintext-gcm2", "n=%zu aad=%zu", n, al);
+      XB_CHECK(&xo, nm); xb_free(&xg); }
+    xb_free(&xo); xb_free(&xt); xb_free(&xw);
+    psAesClearGCM(x);
+    if (nc <= 2) vf_distinct("%s|%s|n=%d|al=%zu|nc=%d|c=%d,%d|a=%d|ip=%d|tb=%d", nm, tag, n <= 260 ? (int) n : 1000 + (int) (n % 16), al, nc, nc > 0 ? (int) cut[0] : -1, nc > 1 ? (int) cut[1] : -1, a, inplace, tb);
+    else vf_distinct("%s|%s|n=%d|al=%zu|nc=%d|a=%d|ip=%d|tb=%d", nm, tag, n <= 260 ? (int) n : 1000 + (int) (n % 16), al, nc, a, inplace, tb);
+    free(x); gcase_free(&g);
+}
+/* all compositions of the encrypt calls over the last n bytes of a (q+n)-byte plaintext */
+static void gcm_comp_item(int ki, int n, int q, size_t al)
+{
+    if (!item_begin()) return;
+    gcase_t g; size_t L = (size_t) q + n; gcase_new(&g, ki, L, al, (int) (L % 16));
+    psAesGcm_t *x = malloc(sizeof *x); xb_t xo, xt; const char *nm = GN[ki]; long bad = 0;
+    xb_new(&xo, 3, L); xb_new(&xt, 5, 16);
+    if (gcm_ready(x, ki, g.k.p, g.iv.p, g.aad.p, al) == 0) for (uint32_t mask = 0; mask < (1u << (n - 1)); mask++) {
+        int decrypt = (int) (mask & 1) ^ (n & 1);
+        const unsigned char *src = decrypt ? g.ct : g.pt.p, *want = decrypt ? g.pt.p : g.ct;
+        psAesReadyGCM(x, g.iv.p, g.aad.p, (psSize_t) al);
+        size_t p = 0;
+        if (q) { if (decrypt) psAesDecryptGCMtagless(x, src, xo.p, q); else psAesEncryptGCM(x, src, xo.p, q); p = q; }
+        for (int i = 0; i < n - 1; i++) if (mask >> i & 1) { size_t e = (size_t) q + i + 1; if (decrypt) psAesDecryptGCMtagless(x, src + p, xo.p + p, (uint32_t) (e - p)); else psAesEncryptGCM(x, src + p, xo.p + p, (uint32_t) (e - p)); p = e; }
+        if (decrypt) psAesDecryptGCMtagless(x, src + p, xo.p + p, (uint32_t) (L - p)); else psAesEncryptGCM(x, src + p, xo.p + p, (uint32_t) (L - p));
+        psAesGetGCMTag(x, 16, xt.p);
+        if ((memcmp(xo.p, want, L) || memcmp(xt.p, g.tag, 16)) && bad++ < 2)
+            V(nm, memcmp(xo.p, want, L) ? (decrypt ? "wrong-plaintext-tagless-split" : "wrong-ciphertext-split") : "wrong-tag-split", "%s of %zu bytes (aad %zu), call composition mask 0x%x over the last %d bytes after a %d-byte first call: tag got %s want %s", decrypt ? "tagless decrypt" : "encrypt", L, al, mask, n, q, hx(xt.p, 16), hx(g.tag, 16));
+    }
+    cntn(nm, 1L << (n - 1));
+    XB_CHECK(&xo, nm); XB_CHECK(&xt, nm);
+    vf_distinct("%s|comp|n=%d|q=%d|al=%zu", nm, n, q, al);
+    xb_free(&xo); xb_free(&xt); psAesClearGCM(x); free(x); gcase_free(&g);
+}
+/* every single-bit change of ciphertext, tag, nonce, AAD must be rejected; so must truncations */
+static void gcm_neg_item(int ki, size_t n, size_t al, int tb, int use2)
+{
+    if (!item_begin()) return;
+    gcase_t g; gcase_new(&g, ki, n, al, (int) ((n + al) % 16));
+    psAesGcm_t *x = malloc(sizeof *x); const char *nm = GN[ki]; xb_t xw, xo, xiv, xa; int32_t rc; long nchk = 0; int bad[5] = { 0, 0, 0, 0, 0 };
+    xb_new(&xw, 1, n + tb); memcpy(xw.p, g.ct, n); memcpy(xw.p + n, g.tag, tb); xb_new(&xo, 2, n); xb_dup(&xiv, 3, g.iv.p, 12); xb_dup(&xa, 4, g.aad.p, al);
+    if (g_batch % 6 == 3 && g_item == 1) vf_sample("%s: all %zu single-bit changes of ct(%zu)/tag(%d)/nonce/aad(%zu) + truncations must be rejected (%s)", nm, 8 * (n + tb + 12 + al), n, tb, al, use2 ? "psAesDecryptGCM2" : "psAesDecryptGCM");
+    if (gcm_ready(x, ki, g.k.p, g.iv.p, g.aad.p, al) == 0) {
+#define GCM_OPEN() (gcm_again(x, ki, g.k.p, xiv.p, xa.p, al, use2 ? 16 : tb), nchk++, use2 ? psAesDecryptGCM2(x, xw.p, xo.p, (uint32_t) n, xw.p + n, (uint32_t) tb) : psAesDecryptGCM(x, xw.p, (uint32_t) (n + tb), xo.p, (uint32_t) n))
+        rc = GCM_OPEN();
+        if (rc < 0) V(nm, tb == 16 ? "rejects-valid" : "rejects-valid-short-tag", "unmodified input rejected (%d) n=%zu aad=%zu tagbytes=%d gcm2=%d", rc, n, al, tb, use2);
+        else {
+            /* A tb-byte tag is forged by chance with probability 2^-8tb: changes that do not touch the tag itself are
+             * only required to be rejected when that chance is negligible (tb >= 8); tag-bit flips are deterministic. */
+            int strong = tb >= 8;
+            for (size_t b = strong ? 0 : 8 * n; b < 8 * (n + tb); b++) {
+                xw.p[b / 8] ^= (unsigned char) (1 << (b % 8)); rc = GCM_OPEN(); xw.p[b / 8] ^= (unsigned char) (1 << (b % 8));
+                if (rc >= 0 && bad[b / 8 < n ? 0 : 1]++ < 1) V(nm, b / 8 < n ? "accepts-modified-ciphertext" : "accepts-modified-tag", "bit %zu of byte %zu of %s flipped, n=%zu aad=%zu tagbytes=%d gcm2=%d: accepted", b % 8, b / 8 < n ? b / 8 : b / 8 - n, b / 8 < n ? "ciphertext" : "tag", n, al, tb, use2);
+            }
+            for (size_t b = 0; strong && b < 96; b++) {
+                xiv.p[b / 8] ^= (unsigned char) (1 << (b % 8)); rc = GCM_OPEN(); xiv.p[b / 8] ^= (unsigned char) (1 << (b % 8));
+                if (rc >= 0 && bad[2]++ < 1) V(nm, "accepts-modified-nonce", "nonce bit %zu flipped, n=%zu aad=%zu tagbytes=%d: accepted", b, n, al, tb);
+            }
+            for (size_t b = 0; strong && b < 8 * al; b++) {
+                xa.p[b / 8] ^= (unsigned char) (1 << (b % 8)); rc = GCM_OPEN(); xa.p[b / 8] ^= (unsigned char) (1 << (b % 8));
+                if (rc >= 0 && bad[3]++ < 1) V(nm, "accepts-modified-aad", "aad bit %zu flipped, n=%zu aad=%zu tagbytes=%d: accepted", b, n, al, tb);
+            }
+            if (!use2) {
+                /* the record is cut short by k bytes but the caller still expects a tb-byte tag */
+                for (size_t k = 1; strong && k <= (size_t) tb && k <= n; k++) {
+                    gcm_again(x, ki, g.k.p, xiv.p, xa.p, al, tb); nchk++;
+                    rc = psAesDecryptGCM(x, xw.p, (uint32_t) (n + tb - k), xo.p, (uint32_t) (n - k));
+                    if (rc >= 0 && bad[4]++ < 1) V(nm, "accepts-truncated", "input truncated by %zu bytes (n=%zu aad=%zu tagbytes=%d) accepted", k, n, al, tb);
+                }
+                /* no tag at all / shorter than the plaintext length: must be refused */
+                gcm_again(x, ki, g.k.p, xiv.p, xa.p, al, tb); nchk++;
+                if (psAesDecryptGCM(x, xw.p, (uint32_t) n, xo.p, (uint32_t) n) >= 0) V(nm, "accepts-missing-tag", "ctLen == ptLen (%zu) accepted", n);
+                if (n) { gcm_again(x, ki, g.k.p, xiv.p, xa.p, al, tb); nchk++; if (psAesDecryptGCM(x, xw.p, (uint32_t) (n - 1), xo.p, (uint32_t) n) >= 0) V(nm, "accepts-missing-tag", "ctLen < ptLen accepted"); }
+            }
+        }
+    }
+    cntn(nm, nchk);
+    XB_CHECK(&xo, nm);
+    vf_distinct("%s|neg|n=%zu|al=%zu|tb=%d|%d", nm, n, al, tb, use2);
+    xb_free(&xw); xb_free(&xo); xb_free(&xiv); xb_free(&xa); psAesClearGCM(x); free(x); gcase_free(&g);
+}
+/* context reuse: message 1 sealed with a tb-byte tag, then psAesReadyGCM + message 2 on the same context */
+static void gcm_reuse_item(int ki, size_t n1, size_t n2, int tb)
+{
+    if (!item_begin()) return;
+    gcase_t g1, g2; gcase_new(&g1, ki, n1, 13, 1); gcase_new(&g2, ki, n2, 5, 2);
+    psAesGcm_t *x = malloc(sizeof *x); xb_t xo, xt; const char *nm = GN[ki];
+    xb_new(&xo, 3, n1 > n2 ? n1 : n2); xb_new(&xt, 4, 16);
+    if (gcm_ready(x, ki, g1.k.p, g1.iv.p, g1.aad.p, g1.al) == 0) {
+        psAesEncryptGCM(x, g1.pt.p, xo.p, (uint32_t) n1); psAesGetGCMTag(x, (uint8_t) tb, xt.p);
+        ref_aead(RC_GCM[ki], g1.k.p, g2.iv.p, g2.aad.p, g2.al, g2.pt.p, n2, g2.ct, g2.tag);   /* message 2 under key 1 */
+        psAesReadyGCM(x, g2.iv.p, g2.aad.p, (psSize_t) g2.al);
+        psAesEncryptGCM(x, g2.pt.p, xo.p, (uint32_t) n2); psAesGetGCMTag(x, 16, xt.p);
+        cnt(nm);
+        if (memcmp(xo.p, g2.ct, n2) || memcmp(xt.p, g2.tag, 16))
+            V(nm, tb == 16 ? "wrong-output-reused-context" : "wrong-output-reused-context-after-short-tag", "second message (%zu bytes) on a context whose first message (%zu bytes) fetched a %d-byte tag: ct got %s want %s", n2, n1, tb, hx(xo.p, n2), hx(g2.ct, n2));
+    }
+    XB_CHECK(&xo, nm); XB_CHECK(&xt, nm);
+    vf_distinct("%s|reuse|%zu|%zu|%d", nm, n1, n2, tb);
+    xb_free(&xo); xb_free(&xt); psAesClearGCM(x); free(x); gcase_free(&g1); gcase_free(&g2);
+}
+/* two live contexts sealing alternately */
+static void gcm_inter_item(int ki, int ki2)
+{
+    if (!item_begin()) return;
+    int K[2] = { ki, ki2 }; gcase_t g[2]; psAesGcm_t *x[2]; xb_t xo[2]; size_t p[2] = { 0, 0 }; unsigned char tg[2][16]; int ok = 1;
+    for (int i = 0; i < 2; i++) { gcase_new(&g[i], K[i], vf_below(&ir, 300), vf_below(&ir, 65), (int) vf_below(&ir, 16)); x[i] = malloc(sizeof(psAesGcm_t)); xb_new(&xo[i], vf_below(&ir, 16), g[i].n); if (gcm_ready(x[i], K[i], g[i].k.p, g[i].iv.p, g[i].aad.p, g[i].al) < 0) ok = 0; }
+    while (ok && (p[0] < g[0].n || p[1] < g[1].n)) for (int i = 0; i < 2; i++) if (p[i] < g[i].n) {
+        size_t left = g[i].n - p[i], take = 1 + vf_below(&ir, (uint32_t) (left < 40 ? left : 40));
+        psAesEncryptGCM(x[i], g[i].pt.p + p[i], xo[i].p + p[i], (uint32_t) take); p[i] += take;
+    }
+    for (int i = 1; ok && i >= 0; i--) psAesGetGCMTag(x[i], 16, tg[i]);
+    for (int i = 0; i < 2; i++) {
+        cnt(GN[K[i]]);
+        if (ok && (memcmp(xo[i].p, g[i].ct, g[i].n) || memcmp(tg[i], g[i].tag, 16))) V(GN[K[i]], "wrong-output-interleaved", "n=%zu aad=%zu sealed while a second context was live: tag got %s want %s", g[i].n, g[i].al, hx(tg[i], 16), hx(g[i].tag, 16));
+        XB_CHECK(&xo[i], GN[K[i]]); xb_free(&xo[i]); psAesClearGCM(x[i]); free(x[i]); gcase_free(&g[i]);
+    }
+    vf_distinct("gcm|inter|%d|%d", ki, ki2);
+}
+static const int GNEG[3] = { 1, 12, 300 };
+static int gcm_nbatches(void) { return 3 * 6; }
+static void gcm_run(int batch)
+{
+    int ki = batch / 6, part = batch % 6, d = g_depth;
+    static const size_t pls[10] = { 0, 1, 15, 16, 17, 31, 32, 33, 64, 65 };
+    switch (part) {
+    case 0:     /* plaintext 0..65 x AAD 0..64 */
+        for (size_t al = 0; al <= 64; al++) {
+            if (ki == 0 || d) for (size_t n = 0; n <= 65; n++) gcm_item(ki, n, al, NULL, 0, (int) ((n + al) % 16), (int) ((n + al) & 1), 16, "len");
+            else for (int j = 0; j < 10; j++) gcm_item(ki, pls[j], al, NULL, 0, (int) ((j + al) % 16), (int) ((j + al) & 1), 16, "len");
+        }
+        break;
+    case 1:     /* lengths 0..260 (GHASH buffers 128 bytes internally), all tag lengths */
+        for (size_t n = 0; n <= 260; n++) { gcm_item(ki, n, (n * 5) % 65, NULL, 0, (int) (n % 16), 0, 16, "len"); if (d) gcm_item(ki, n, 13, NULL, 0, (int) ((n + 8) % 16), 1, 16, "len"); }
+        for (int tb = 1; tb <= 16; tb++) for (int j = 0; j < 10; j++) gcm_item(ki, pls[j], (size_t) (tb * 3 + j) % 65, NULL, 0, (tb + j) % 16, j & 1, tb, "taglen");
+        for (int a = 0; a < 16; a++) for (int ip = 0; ip < 2; ip++) { gcm_item(ki, 33, 13, NULL, 0, a, ip, 16, "align"); gcm_item(ki, 129, 5, NULL, 0, a, ip, 16, "align"); }
+        break;
+    case 2: {   /* call partitions */
+        int nmax = d == 0 ? 10 : d == 1 ? 12 : 14, n2 = d == 0 ? 7 : d == 1 ? 9 : 11;
+        for (int n = 1; n <= nmax; n++) gcm_comp_item(ki, n, 0, (size_t) n % 3 ? 13 : 0);
+        { int qs[5] = { 16 - n2 / 2, 32 - n2 / 2, 128 - n2 / 2, 144 - n2 / 2, 256 - n2 / 2 }; for (int i = 0; i < 5; i++) gcm_comp_item(ki, n2, qs[i], i & 1 ? 20 : 0); }
+        { size_t Ls[5] = { 17, 33, 129, 145, 257 }; for (int i = 0; i < (d ? 5 : 3); i++) for (uint32_t c = 0; c <= Ls[i]; c++) gcm_item(ki, Ls[i], 13, &c, 1, (int) (c % 16), (int) (c & 1), 16, "split2"); }
+        { int cand[12] = { 0, 1, 15, 16, 17, 127, 128, 129, 143, 144, 145, 161 }; for (int i = 0; i < 12; i++) for (int j = i; j < 12; j++) { uint32_t cu[2] = { (uint32_t) cand[i], (uint32_t) cand[j] }; gcm_item(ki, 161, 7, cu, 2, (i + j) % 16, 0, 16, "split3"); } }
+        break; }
+    case 3: {   /* negative: exhaustive bit flips */
+        static const size_t ns[8] = { 0, 1, 16, 17, 40, 15, 33, 64 }, als[8] = { 0, 13, 1, 20, 5, 64, 0, 16 };
+        for (int j = 0; j < (d ? 8 : 6); j++) gcm_neg_item(ki, ns[j], als[j], 16, j == 2 || j == 5);
+        for (int tb = 1; tb < 16; tb++) gcm_neg_item(ki, ns[tb % 5], als[(tb + 1) % 5], tb, tb & 1);
+        for (int i = 0; i < GNEG[d] * 4; i++) { vf_rng r; vf_rng_init(&r, vf_seed + g_ghash, ((uint64_t) batch << 24) + i); size_t n = vf_below(&r, 80), al = vf_below(&r, 65); gcm_neg_item(ki, n, al, vf_below(&r, 4) ? 16 : 1 + (int) vf_below(&r, 16), (int) vf_below(&r, 2)); }
+        break; }
+    case 4:
+        for (int i = 0; i < RN[d]; i++) {
+            vf_rng r; vf_rng_init(&r, vf_seed + g_ghash, ((uint64_t) batch << 24) + i);
+            size_t n = rand_len(NULL, &r); uint32_t cu[8]; int nc = rand_cuts(&r, n, cu, 6);
+            gcm_item(ki, n, vf_below(&r, 65), cu, nc, (int) vf_below(&r, 16), (int) vf_below(&r, 2), 16, "rand");
+        }
+        break;
+    case 5:
+        for (int i = 0; i < IN[d]; i++) gcm_inter_item(ki, (i & 1) ? (ki + 1 + i / 2) % 3 : ki);
+        for (int tb = 1; tb <= 16; tb++) { gcm_reuse_item(ki, 20, 40, tb); gcm_reuse_item(ki, 0, 17, tb); gcm_reuse_item(ki, 33, 5, tb); }
+        break;
+    }
+}
+
+/* ================================================================== */
+/* ChaCha20-Poly1305 (IETF)                                            */
+/* ================================================================== */
+#define CN "chacha20poly1305"
+typedef struct { xb_t k, iv, aad, pt; unsigned char *ct; size_t n, al; } ccase_t;    /* ct holds n + 16 bytes (ct || tag) */
+static void ccase_new(ccase_t *g, size_t n, size_t al, int a)
+{
+    g->n = n; g->al = al;
+    xb_dup(&g->k, (a + 1) % 16, slice(32), 32); xb_dup(&g->iv, (a + 2) % 16, slice(12), 12); xb_dup(&g->aad, (a + 3) % 16, slice(al), al); xb_dup(&g->pt, a, slice(n), n);
+    g->ct = malloc(n + 16);
+    ref_aead(RC_CHACHA, g->k.p, g->iv.p, g->aad.p, al, g->pt.p, n, g->ct, g->ct + n);
+}
+static void ccase_free(ccase_t *g) { xb_free(&g->k); xb_free(&g->iv); xb_free(&g->aad); xb_free(&g->pt); free(g->ct); }
+static void chacha_item(size_t n, size_t al, int a, int inplace, const char *tag)
+{
+    if (!item_begin()) return;
+    ccase_t g; ccase_new(&g, n, al, a);
+    psChacha20Poly1305Ietf_t *x = malloc(sizeof *x); xb_t xo, xt, xw; psResSize_t rc;
+    if (g_batch == 0 && g_item == 1) vf_sample(CN ": seal+open %zu bytes, aad %zu, align %d%s", n, al, a, inplace ? " in place" : "");
+    if (psChacha20Poly1305IetfInit(x, g.k.p) < 0) { V(CN, "init-failed", "Init failed"); goto out; }
+    /* combined seal */
+    xb_new(&xo, (a + 5) % 16, n + 16); if (inplace) memcpy(xo.p, g.pt.p, n);
+    rc = psChacha20Poly1305IetfEncrypt(x, inplace ? xo.p : g.pt.p, n, g.iv.p, g.aad.p, al, xo.p);
+    cnt(CN);
+    if (rc != (psResSize_t) (n + 16)) V(CN, "wrong-return-encrypt", "Encrypt returned %d for %zu bytes", rc, n);
+    else if (memcmp(xo.p, g.ct, n)) V(CN, inplace ? "wrong-ciphertext-inplace" : "wrong-ciphertext", "%s n=%zu aad=%zu align=%d: got %s want %s", tag, n, al, a, hx(xo.p, n), hx(g.ct, n));
+    else if (memcmp(xo.p + n, g.ct + n, 16)) V(CN, "wrong-tag", "%s n=%zu aad=%zu align=%d: got %s want %s", tag, n, al, a, hx(xo.p + n, 16), hx(g.ct + n, 16));
+    XB_CHECK(&xo, CN); xb_free(&xo);
+    /* detached seal */
+    xb_new(&xo, (a + 6) % 16, n); xb_new(&xt, (a + 7) % 16, 16); if (inplace) memcpy(xo.p, g.pt.p, n);
+    rc = psChacha20Poly1305IetfEncryptDetached(x, inplace ? xo.p : g.pt.p, n, g.iv.p, g.aad.p, (psSize_t) al, xo.p, xt.p);
+    cnt(CN);
+    if (rc != (psResSize_t) n) V(CN, "wrong-return-encrypt", "EncryptDetached returned %d for %zu bytes", rc, n);
+    else if (memcmp(xo.p, g.ct, n)) V(CN, inplace ? "wrong-ciphertext-inplace" : "wrong-ciphertext", "detached %s n=%zu aad=%zu: got %s want %s", tag, n, al, hx(xo.p, n), hx(g.ct, n));
+    else if (memcmp(xt.p, g.ct + n, 16)) V(CN, "wrong-tag", "detached %s n=%zu aad=%zu: got %s want %s", tag, n, al, hx(xt.p, 16), hx(g.ct + n, 16));
+    XB_CHECK(&xo, CN); XB_CHECK(&xt, CN); xb_free(&xo); xb_free(&xt);
+    /* combined open */
+    xb_dup(&xw, (a + 8) % 16, g.ct, n + 16); xb_new(&xo, (a + 9) % 16, inplace ? 0 : n);
+    rc = psChacha20Poly1305IetfDecrypt(x, xw.p, n + 16, g.iv.p, g.aad.p, al, inplace ? xw.p : xo.p);
+    cnt(CN);
+    if (rc < 0) V(CN, "rejects-valid", "Decrypt returned %d for unmodified input n=%zu aad=%zu", rc, n, al);
+    else if (rc != (psResSize_t) n) V(CN, "wrong-return-decrypt", "Decrypt returned %d for %zu plaintext bytes", rc, n);
+    else if (memcmp(inplace ? xw.p : xo.p, g.pt.p, n)) V(CN, inplace ? "wrong-plaintext-inplace" : "wrong-plaintext", "n=%zu aad=%zu", n, al);
+    XB_CHECK(&xo, CN); XB_CHECK(&xw, CN); xb_free(&xo); xb_free(&xw);
+    /* detached open */
+    xb_dup(&xw, (a + 10) % 16, g.ct, n); xb_dup(&xt, (a + 11) % 16, g.ct + n, 16); xb_new(&xo, (a + 12) % 16, inplace ? 0 : n);
+    rc = psChacha20Poly1305IetfDecryptDetached(x, xw.p, n, g.iv.p, g.aad.p, al, xt.p, inplace ? xw.p : xo.p);
+    cnt(CN);
+    if (rc < 0) V(CN, "rejects-valid", "DecryptDetached returned %d for unmodified input n=%zu aad=%zu", rc, n, al);
+    else if (rc != (psResSize_t) n) V(CN, "wrong-return-decrypt", "DecryptDetached returned %d for %zu bytes", rc, n);
+    else if (memcmp(inplace ? xw.p : xo.p, g.pt.p, n)) V(CN, inplace ? "wrong-plaintext-inplace" : "wrong-plaintext", "detached n=%zu aad=%zu", n, al);
+    XB_CHECK(&xo, CN); XB_CHECK(&xw, CN); xb_free(&xo); xb_free(&xw); xb_free(&xt);
+    psChacha20Poly1305IetfClear(x);
+    vf_distinct(CN "|%s|n=%d|al=%zu|a=%d|ip=%d", tag, n <= 260 ? (int) n : 1000 + (int) (n % 64), al, a, inplace);
+out:
+    free(x); ccase_free(&g);
+}
+static void chacha_neg_item(size_t n, size_t al, int detached)
+{
+    if (!item_begin()) return;
+    ccase_t g; ccase_new(&g, n, al, (int) ((n + al) % 16));
+    psChacha20Poly1305Ietf_t *x = malloc(sizeof *x); xb_t xw, xo, xiv, xa; psResSize_t rc; long nchk = 0; int bad[5] = { 0, 0, 0, 0, 0 };
+    xb_dup(&xw, 1, g.ct, n + 16); xb_new(&xo, 2, n); xb_dup(&xiv, 3, g.iv.p, 12); xb_dup(&xa, 4, g.aad.p, al);
+    if (g_batch == 2 && g_item == 1) vf_sample(CN ": all %zu single-bit changes of ct(%zu)/tag/nonce/aad(%zu) + truncations must be rejected", 8 * (n + 16 + 12 + al), n, al);
+    if (psChacha20Poly1305IetfInit(x, g.k.p) < 0) { V(CN, "init-failed", "Init failed"); goto out; }
+#define CC_OPEN() (nchk++, detached ? psChacha20Poly1305IetfDecryptDetached(x, xw.p, n, xiv.p, xa.p, al, xw.p + n, xo.p) : psChacha20Poly1305IetfDecrypt(x, xw.p, n + 16, xiv.p, xa.p, al, xo.p))
+    rc = CC_OPEN();
+    if (rc < 0) { V(CN, "rejects-valid", "unmodified input rejected (%d) n=%zu aad=%zu", rc, n, al); goto out; }
+    for (size_t b = 0; b < 8 * (n + 16); b++) {
+        xw.p[b / 8] ^= (unsigned char) (1 << (b % 8)); rc = CC_OPEN(); xw.p[b / 8] ^= (unsigned char) (1 << (b % 8));
+        if (rc >= 0 && bad[b / 8 < n ? 0 : 1]++ < 1) V(CN, b / 8 < n ? "accepts-modified-ciphertext" : "accepts-modified-tag", "bit %zu of byte %zu of %s flipped, n=%zu aad=%zu: accepted", b % 8, b / 8 < n ? b / 8 : b / 8 - n, b / 8 < n ? "ciphertext" : "tag", n, al);
+    }
+    for (size_t b = 0; b < 96; b++) {
+        xiv.p[b / 8] ^= (unsigned char) (1 << (b % 8)); rc = CC_OPEN(); xiv.p[b / 8] ^= (unsigned char) (1 << (b % 8));
+        if (rc >= 0 && bad[2]++ < 1) V(CN, "accepts-modified-nonce", "nonce bit %zu flipped, n=%zu aad=%zu: accepted", b, n, al);
+    }
+    for (size_t b = 0; b < 8 * al; b++) {
+        xa.p[b / 8] ^= (unsigned char) (1 << (b % 8)); rc = CC_OPEN(); xa.p[b / 8] ^= (unsigned char) (1 << (b % 8));
+        if (rc >= 0 && bad[3]++ < 1) V(CN, "accepts-modified-aad", "aad bit %zu flipped, n=%zu aad=%zu: accepted", b, n, al);
+    }
+    if (!detached) for (size_t k = 1; k <= n + 16 && k <= 24; k++) {       /* input cut short, including below the tag size */
+        nchk++;
+        rc = psChacha20Poly1305IetfDecrypt(x, xw.p, n + 16 - k, xiv.p, xa.p, al, xo.p);
+        if (rc >= 0 && bad[4]++ < 1) V(CN, "accepts-truncated", "input truncated by %zu bytes (n=%zu aad=%zu) accepted", k, n, al);
+    }
+    /* AAD length is authenticated too: one byte fewer */
+    if (al) { nchk++; rc = detached ? psChacha20Poly1305IetfDecryptDetached(x, xw.p, n, xiv.p, xa.p, al - 1, xw.p + n, xo.p) : psChacha20Poly1305IetfDecrypt(x, xw.p, n + 16, xiv.p, xa.p, al - 1, xo.p); if (rc >= 0) V(CN, "accepts-modified-aad", "aad shortened by one byte accepted (n=%zu aad=%zu)", n, al); }
+out:
+    cntn(CN, nchk);
+    XB_CHECK(&xo, CN);
+    vf_distinct(CN "|neg|n=%zu|al=%zu|%d", n, al, detached);
+    xb_free(&xw); xb_free(&xo); xb_free(&xiv); xb_free(&xa); free(x); ccase_free(&g);
+}
+static int chacha_nbatches(void) { return 4; }
+static void chacha_run(int batch)
+{
+    int d = g_depth;
+    static const size_t pls[10] = { 0, 1, 15, 16, 17, 63, 64, 65, 128, 257 };
+    switch (batch) {
+    case 0: for (size_t n = 0; n <= 257; n++) for (int k = 0; k < (d ? 8 : 1); k++) chacha_item(n, (n * 5 + 11 * k) % 65, (int) ((n + 3 * k) % 16), (int) ((n + k) & 1), "len"); break;
+    case 1:
+        for (size_t al = 0; al <= 64; al++) for (int j = 0; j < 10; j++) chacha_item(pls[j], al, (int) ((al + j) % 16), (int) ((al + j) & 1), "aad");
+        for (int a = 0; a < 16; a++) for (int ip = 0; ip < 2; ip++) { chacha_item(65, 13, a, ip, "align"); chacha_item(16, 0, a, ip, "align"); }
+        break;
+    case 2: {
+        static const size_t ns[8] = { 0, 1, 16, 17, 64, 65, 33, 130 }, als[8] = { 0, 13, 1, 20, 5, 64, 0, 16 };
+        for (int j = 0; j < (d ? 8 : 6); j++) chacha_neg_item(ns[j], als[j], j & 1);
+        for (int i = 0; i < GNEG[d] * 8; i++) { vf_rng r; vf_rng_init(&r, vf_seed + g_ghash, ((uint64_t) batch << 24) + i); size_t n = vf_below(&r, 140), al = vf_below(&r, 65); chacha_neg_item(n, al, (int) vf_below(&r, 2)); }
+        break; }
+    case 3:
+        for (int i = 0; i < RN[d] * 2; i++) { vf_rng r; vf_rng_init(&r, vf_seed + g_ghash, ((uint64_t) batch << 24) + i); chacha_item(rand_len(NULL, &r), vf_below(&r, 65), (int) vf_below(&r, 16), (int) vf_below(&r, 2), "rand"); }
+        break;
+    }
+}
+
+/* ================================================================== */
+/* driver                                                              */
+/* ================================================================== */
+typedef struct { const char *name; int (*nb)(void); void (*run)(int); } group_t;
+static const group_t GROUPS[] = {
+    { "stream", stream_nbatches, stream_run },
+    { "hmac",   hmac_nbatches,   hmac_run },
+    { "hkdf",   hkdf_nbatches,   hkdf_run },
+    { "pbkdf2", pbkdf2_nbatches, pbkdf2_run },
+    { "cbc",    cbc_nbatches,    cbc_run },
+    { "gcm",    gcm_nbatches,    gcm_run },
+    { "chacha", chacha_nbatches, chacha_run },
+};
+#define NGROUPS ((int) (sizeof GROUPS / sizeof GROUPS[0]))
+typedef struct { const group_t *g; int batch; } job_t;
+static void run_job(void *arg)
+{
+    job_t *j = arg; vf_rng br;
+    g_group = j->g->name; g_ghash = vf_hash(g_group, strlen(g_group)); g_batch = j->batch; g_item = 0;
+    vf_nsamples = 0; vf_maxsamples = 1;
+    vf_rng_init(&br, vf_seed ^ g_ghash, (uint64_t) j->batch + 0x5151);
+    fill(&br, pool, POOLSZ);
+    j->g->run(j->batch);
+    cnt_flush();
+}
+int main(int argc, char **argv)
+{
+    vf_init(argc, argv);
+    g_depth = (int) vf_argl("--depth", vf_thorough ? 1 : 0);
+    const group_t *only_g = NULL; int only_b = -1;
+    if (vf_case) {
+        char gn[32] = ""; unsigned long long s = vf_seed; long it = -1; int b = -1, d = g_depth;
+        const char *p = vf_case;
+        while (*p) {
+            if (!strncmp(p, "g=", 2)) sscanf(p + 2, "%31[^,]", gn);
+            else if (!strncmp(p, "b=", 2)) b = atoi(p + 2);
+            else if (!strncmp(p, "i=", 2)) it = atol(p + 2);
+            else if (!strncmp(p, "s=", 2)) s = strtoull(p + 2, NULL, 0);
+            else if (!strncmp(p, "d=", 2)) d = atoi(p + 2);
+            p = strchr(p, ','); if (!p) break; p++;
+        }
+        for (int i = 0; i < NGROUPS; i++) if (!strcmp(GROUPS[i].name, gn)) only_g = &GROUPS[i];
+        if (!only_g || b < 0 || d < 0 || d > 2) { vf_incon("unparsable replay spec '%s' (want g=<group>,b=<batch>[,i=<item>],s=<seed>,d=<depth>)", vf_case); vf_flush(); return 2; }
+        vf_seed = s; g_depth = d; only_b = b; g_only = it;
+    }
+    if (g_depth < 0 || g_depth > 2) g_depth = 0;
+    if (psCryptoOpen(PSCRYPTO_CONFIG) < 0) { vf_incon("psCryptoOpen failed"); vf_flush(); return 2; }
+    ref_setup();
+    pool = malloc(POOLSZ);
+    long idx = 0, nb_total = 0;
+    for (int gi = 0; gi < NGROUPS; gi++) {
+        int nb = GROUPS[gi].nb();
+        for (int b = 0; b < nb; b++, idx++) {
+            job_t j = { &GROUPS[gi], b };
+            if (vf_case) {
+                if (only_g != &GROUPS[gi] || only_b != b) continue;
+                run_job(&j);            /* in-process: a sanitizer report ends the replay with the real report on stderr */
+                continue;
+            }
+            if (!vf_mine(idx)) continue;
+            char cs[96], cls[48];
+            snprintf(cs, sizeof cs, "g=%s,b=%d,s=%llu,d=%d", GROUPS[gi].name, b, (unsigned long long) vf_seed, g_depth);
+            snprintf(cls, sizeof cls, "c12-%s", GROUPS[gi].name);
+            vf_fork_case(run_job, &j, cls, cs, g_depth ? 1500 : 240);
+            nb_total++;
+        }
+    }
+    vf_stat("batches", nb_total);
+    vf_flush();
+    free(pool);
+    return 0;
 }
